@@ -16,6 +16,7 @@ NOT_DECIDED = "result values as numbers, latency distribution, ordering among co
 DECIDED += "; R4 also: the amount charged against the capacity has the same arithmetic shape in exec_write and write_at_internal, and the page cache is probed before the page is inserted (ring scheduler and tokio shim); R8 exhaustive scans of schedule_pending and IoUringHostState::crash"
 DECIDED += "; R9 the page-cache eviction loop terminates for every max_pages; AsyncCancel targets only operations still in flight"
 DECIDED += '; R2 also: the in-flight and ready pools change one element at a time (no wholesale overwrite / clear); R4 also: O_DIRECT alignment tests address, offset and length each, in the ring as in the file API'
+DECIDED += "; R10 no panicking arithmetic on the guest's offset in the executors, or unrepresentable ranges completed with an immediate error at submit; R6 also: completion deadlines saturate and the waiter's deadline is computed with a checked addition; R4 also: both siblings report an injected corruption"
 ASSUMPTIONS = ["the consumer keeps buffers alive until the CQE is reaped (io_uring contract)"]
 
 RS = "turmoil_io_uring::sim::RingState::"
